@@ -216,12 +216,12 @@ func (h *c19H) reader(id int) {
 		case "rstriped":
 			outs := make([]dyn.Sl, C)
 			for c := range outs {
-				outs[c] = dyn.NewSl(h.t, full) // only completely filled frames: the striped reader needs them
+				outs[c] = dyn.NewSl(h.t, full-c%2) // only completely filled frames: the striped reader needs them; unequal lengths
 			}
 			r := dyn.ReadStriped(ro(), h.t, outs, false)
 			h.mix(id, uint64(r))
 			for c := range outs {
-				for i := 0; i < full; i++ {
+				for i := 0; i < outs[c].Len(); i++ {
 					h.mix(id, outs[c].Get(i).B)
 				}
 			}
@@ -472,6 +472,8 @@ func c19Configs(tier string, race bool) []c19Cfg {
 			wb = 1
 		}
 		r = append(r, c19Cfg{T: "int16", C: 2, R: 1, W: 2, Menu: 1, Bound: wb, WW: 8200, Frames: 2*8200 + 4, FakeProcs: 4})
+		// readers of a long shared buffer (40000 samples), striped reads into slices of unequal lengths
+		r = append(r, c19Cfg{T: "int8", C: 2, R: 2, W: 0, Menu: 1, Bound: wb, Frames: 20000, FakeProcs: 4})
 	}
 	if race {
 		addWide(2, 2)
